@@ -74,6 +74,9 @@ prog.EXTRA_NODES["probe"] = _mk_probe
 RICH = [
     {"cls": "C", "sources": {}, "steps": [["from_", [["src", "T"]]], ["select", [["col", "T", "a"]]],
                                           ["where", [["call", ["col", "T", "c"], "has_any_keys", [["pyset", [["raw", "alpha"], ["raw", "beta"], ["raw", "gamma"], ["raw", "delta"], ["raw", "eps"]]]]]]]]},
+    {"cls": "C", "sources": {}, "steps": [["from_", [["src", "T"]]], ["select", [["col", "T", "a"]]],
+                                          ["rollup", [["pyset", [["col", "T", "a"], ["col", "T", "b"], ["col", "T", "c"], ["col", "T", "id"]]]]],
+                                          ["where", [["call", ["col", "T", "c"], "isin", [["pyset", [["interval", {"days": 3}], ["interval", {"days": 1}], ["interval", {"hours": 5}], ["interval", {"weeks": 1}], ["interval", {"minutes": 7}]]]]]]]]},
     # a set given where the API takes "list | tuple | set": the same construction in another process must give the same text
     {"cls": "C", "sources": {}, "steps": [["from_", [["src", "T"]]], ["select", [["col", "T", "a"]]],
                                           ["where", [["call", ["col", "T", "b"], "isin", [["pyset", [["raw", "new"], ["raw", "open"], ["raw", "held"], ["raw", "done"], ["raw", "void"]]]]]]],
@@ -345,7 +348,7 @@ def check_hashseed(roots, seeds):
             if results[k][i] != results[0][i]:
                 d = snap.diff_keys(results[k][i], results[0][i])
                 if k < len(seeds):
-                    out.append((mksig("hashseed", "set_of_json_keys" if "has_any_keys" in json.dumps(roots[i]) else (("set_of_same_named_columns" if json.dumps(roots[i]).count('"c"]') >= 3 else "set_of_terms") if '"pyset", [["col"' in json.dumps(roots[i]) else "set_argument") if '"pyset"' in json.dumps(roots[i]) else d[0].split(":")[0]), "PYTHONHASHSEED=%s vs %s: %s differs: %r vs %r" % (seeds[k], seeds[0], d[:3], results[k][i].get(d[0]), results[0][i].get(d[0]))))
+                    out.append((mksig("hashseed", "set_in_rollup_or_of_intervals" if '"rollup", [["pyset"' in json.dumps(roots[i]) else "set_of_json_keys" if "has_any_keys" in json.dumps(roots[i]) else (("set_of_same_named_columns" if json.dumps(roots[i]).count('"c"]') >= 3 else "set_of_terms") if '"pyset", [["col"' in json.dumps(roots[i]) else "set_argument") if '"pyset"' in json.dumps(roots[i]) else d[0].split(":")[0]), "PYTHONHASHSEED=%s vs %s: %s differs: %r vs %r" % (seeds[k], seeds[0], d[:3], results[k][i].get(d[0]), results[0][i].get(d[0]))))
                 else:
                     out.append((mksig("render_history", d[0].split(":")[0]), "a fresh interpreter that renders the class contexts in order %r instead of the default one: %s differs: %r vs %r" % (
                         runs[k][1], d[:3], results[k][i].get(d[0]), results[0][i].get(d[0]))))
